@@ -32,7 +32,8 @@ META = {
     'alphabet': {'names': NAMES, 'extra names on the module-level library': MODULE_NAMES,
                  'targets': ['local library L1', 'module-level library G'],
                  'bystanders': 'L2 preloaded with Q, A; the other of L1/G preloaded with Q (and B)',
-                 'id lookups': '-1 .. len+3', 'name lookups': 'every alphabet name, NONE, an unknown name'},
+                 'id lookups': '-1 .. len+3', 'churn': '12 sequences of 40 short-lived libraries with 1..3 tags each, same / different '
+                 'names, read back after every add or only at the end', 'name lookups': 'every alphabet name, NONE, an unknown name'},
     'bounds': {'quick': 'depth 3 per target; fresh-interpreter leg: all module-level histories of depth <= 1',
                'thorough': 'depth 4 per target; fresh-interpreter leg: depth <= 2'},
     'assumptions': ['names outside {A,B,C} may be accepted or rejected; either way the oracle applies in full',
@@ -221,6 +222,39 @@ def _first_diff(a, b):
 
 
 # ---------------------------------------------------------------------------------------------------------
+# churn leg: many short-lived libraries (object addresses get reused)
+# ---------------------------------------------------------------------------------------------------------
+
+def churn_case(case):
+    """Libraries are created, filled, read back in full and dropped, one after the other: nothing remembered about a
+    dead library (by address, by count ...) may leak into a new one."""
+    mod = load_module()
+    look = ['NONE', UNKNOWN] + [f'T{i}_{j}' for i in range(3) for j in range(case['tags'])]
+    n = 0
+    for i in range(case['rounds']):
+        lib = mod.TagLibrary()
+        acc = []
+        for j in range(case['tags']):
+            name = f'T{i % 3}_{j}' if case['same_names'] else f'T{i}_{j}x'
+            lib.add_tag(name)
+            acc.append(name)
+            if case['read_each']:
+                judge(observe_lib(lib, look + acc, False), acc, False, f'short-lived library #{i} after {acc}')
+                n += 1
+        judge(observe_lib(lib, look + acc, False), acc, False, f'short-lived library #{i} after {acc}')
+        n += 1
+        del lib
+    return n
+
+
+def churn_cases():
+    for tags in (1, 2, 3):
+        for same in (False, True):
+            for read_each in (False, True):
+                yield {'leg': 'churn', 'rounds': 40, 'tags': tags, 'same_names': same, 'read_each': read_each}
+
+
+# ---------------------------------------------------------------------------------------------------------
 # fresh-interpreter leg
 # ---------------------------------------------------------------------------------------------------------
 
@@ -298,6 +332,15 @@ def run(ctx):
         if ctx.violations:
             return
     ctx.caps.append(f'depth bound {depth} per target (all histories up to that depth covered)')
+    for case in churn_cases():
+        ctx.traces += 1
+        ctx.states += case['rounds']
+        try:
+            ctx.transitions += hbfs._guard(churn_case, case)
+        except Violation as v:
+            ctx.report(case, v)
+            return
+    ctx.leg('churn', sequences=12, libraries_each=40)
     names = NAMES + MODULE_NAMES
     hists = [[]] + [[a] for a in names]
     if ctx.tier == 'thorough':
@@ -309,7 +352,9 @@ def run(ctx):
 
 
 def replay(case):
-    if case['leg'] == 'fresh_interpreter':
+    if case['leg'] == 'churn':
+        hbfs._guard(churn_case, case)
+    elif case['leg'] == 'fresh_interpreter':
         hbfs._guard(child_case, case)
     else:
         hbfs.replay_case(Harness(case['config']['target'], case['config']['names']), case)
